@@ -74,6 +74,25 @@ var pinned = []pinnedCase{
 		SiteTags: []string{"reentry,fn", "finally,fn", "reentry,try", "reentry,try,native"},
 	},
 	{
+		Note: "generator closed (return(), for-of break / throw, Go-driven return) while its finally block catches a VM-raised exception: generator.step() went on as if the block had finished (inbox C03-generator-return-caught-panic-in-finally)",
+		Calls: []callSpec{
+			{Kind: kRunString, Src: "function* g0(){ ev('E', 'g0'); try { ev('T+', 1); yield 1; yield 2; ev('Te', 1); } finally { ev('F', 1); try { ev('T+', 2); undefinedFunction(); ev('Te', 2); } catch (e) { ev('C', 2); probe(0); } finally { ev('F', 2); } probe(1); } }\nev('E', 'top'); var t0 = g0(); t0.next(); t0['return'](5); probe(2);\n"},
+			{Kind: kRunProgram, Src: "ev('E', 'second'); for (var w of g0()) { ev('B', 1); probe(3); break; }\ntry { ev('T+', 3); for (var w of g0()) { ev('B', 2); null.x; } ev('Te', 3); } catch (e) { ev('C', 3); } finally { ev('F', 3); }\n"},
+			{Kind: kGenDrive, Name: "g0", Arg: 1},
+		},
+		SiteTags: []string{"gen,finally,catch", "gen,finally", "", "iter,gen"},
+		Susp:     []int{1, 2},
+	},
+	{
+		Note: "catchable exception leaves a for-of loop, the iterator's return() is cut short by an interrupt / stack overflow: restoreStacks re-panicked before truncating the iterator stack (inbox C03-iterator-close-interrupted)",
+		Calls: []callSpec{
+			{Kind: kRunString, Src: "var it1 = {}; it1[Symbol.iterator] = function(){ var i = 0; return {next: function(){ ev('N', 1); return {value: i++, done: i > 2}; }, 'return': function(){ ev('R', 1); probe(0); return {}; }}; };\nfunction f0(a){ ev('E', 'f0'); for (var w of it1) { ev('B', 1); if (a) throw new Error('x'); break; } return a; }\nev('E', 'top'); try { ev('t+', 1); for (var w of it1) { ev('B', 2); throw 1; } } catch (e) { ev('C', 1); }\nfor (var w of it1) { ev('B', 3); undefinedFunction(); }\n"},
+			{Kind: kCallable, Name: "f0", Arg: 1},
+			{Kind: kCallable, Name: "f0", Arg: 0},
+		},
+		SiteTags: []string{"native,iterreturn,iter"},
+	},
+	{
 		Note: "Go-driven generator suspended in try/finally across outermost calls, then closed",
 		Calls: []callSpec{
 			{Kind: kRunString, Src: "function* g0(){ ev('E', 'g0'); try { ev('T+', 1); yield 1; probe(0); yield 2; ev('Te', 1); } finally { ev('F', 1); probe(1); } }\nvar gg = g0(); gg.next();\n"},
